@@ -136,6 +136,26 @@ reference-substituted by C03's `insert_xpaths` from the row's own node -/
 def valueR (els : List Refs.Chain) (c : Refs.Chain) (k : Str) (v : BVal) : Option Str :=
   (convVal (Form.xpathStr c.path) k v).bind (substR els c)
 
+/-- `Spec.expected` with the value function as a parameter -/
+def expectedG (val : Str → BVal → Option Str) (tt : List (Str × Str)) (logic : BindDict) (trigger : Bool) :
+    Option (List (Str × Str)) :=
+  let keys := dedup (tt.map (·.1) ++ logic.map (·.1))
+  keys.foldr (fun k acc =>
+    match acc with
+    | none => none
+    | some l =>
+      match source tt logic trigger k with
+      | none => some l
+      | some v =>
+        match val k v with
+        | none => none
+        | some s => some ((k, s) :: l)) (some [])
+
+/-- expected attribute map of the node with chain `c` (the property's reading, references substituted by C03's model) -/
+def expectedR (els : List Refs.Chain) (c : Refs.Chain) (tt : List (Str × Str)) (logic : BindDict) (trigger : Bool) :
+    Option (List (Str × Str)) :=
+  expectedG (valueR els c) tt logic trigger
+
 end Spec
 
 end Pyxv.Binds
